@@ -22,6 +22,8 @@ type Baseline struct {
 	Properties map[string][]string `json:"properties"`
 	// Locals: the variables of every function under contract on the delivered tree (rename recovery, see checkClause)
 	Locals map[string][]localInfo `json:"locals,omitempty"`
+	// Loops: per function under contract, {number of loops of its own, number incl. loops of inlined helpers}
+	Loops map[string][2]int `json:"loops,omitempty"`
 }
 
 // loadBaselineLocals makes the delivered tree's variable lists available to clause binding.
@@ -29,6 +31,7 @@ func loadBaselineLocals() {
 	var base Baseline
 	if loadJSON(filepath.Join(verifDir, "baseline", "obligations.json"), &base) == nil && base.Locals != nil {
 		baselineLocals = base.Locals
+		baselineLoops = base.Loops
 	}
 }
 
@@ -743,6 +746,16 @@ func cmdBaseline(args []string) {
 	for _, c := range rr.prog.Contracts {
 		if c.Fn != nil {
 			base.Locals[c.Fn.Key] = localsOf(c.Fn)
+			if c.Fn.Decl != nil && c.Fn.Decl.Body != nil {
+				own, _ := numberLoopsAndLits(c.Fn.Decl)
+				tfv := &FuncVerifier{prog: rr.prog, fn: c.Fn, info: c.Fn.Pkg.TypesInfo}
+				tfv.loops = own
+				tfv.renumberThroughHelpers()
+				if base.Loops == nil {
+					base.Loops = map[string][2]int{}
+				}
+				base.Loops[c.Fn.Key] = [2]int{len(own), len(tfv.loops)}
+			}
 		}
 	}
 	os.MkdirAll(filepath.Join(verifDir, "baseline"), 0o755)
